@@ -18,6 +18,7 @@ package heimdall
 
 import (
 	"errors"
+	"net/http"
 	"reflect"
 )
 
@@ -41,3 +42,37 @@ type RedirectError struct {
 func (e *RedirectError) Error() string { return e.Message }
 
 func (e *RedirectError) Is(target error) bool { return reflect.TypeOf(e) == reflect.TypeOf(target) }
+
+const wwwAuthenticateHeader = "WWW-Authenticate"
+
+// responseHeadersError decorates an error with headers, which have to be part
+// of the response created for that error.
+type responseHeadersError struct {
+	error
+
+	headers http.Header
+}
+
+func (e *responseHeadersError) Unwrap() error { return e.error }
+
+// WithAuthenticationChallenge decorates err with the WWW-Authenticate values present
+// in headers, so that the response created for err challenges the client. No other
+// header is taken over. If there are no such values, err is returned as is.
+func WithAuthenticationChallenge(err error, headers http.Header) error {
+	values := headers.Values(wwwAuthenticateHeader)
+	if err == nil || len(values) == 0 {
+		return err
+	}
+
+	return &responseHeadersError{error: err, headers: http.Header{wwwAuthenticateHeader: values}}
+}
+
+// ResponseHeadersFrom returns the headers err has been decorated with, if any.
+func ResponseHeadersFrom(err error) http.Header {
+	var rhe *responseHeadersError
+	if errors.As(err, &rhe) {
+		return rhe.headers
+	}
+
+	return nil
+}
